@@ -4,7 +4,8 @@
 EXTENDS Integers, Sequences, Json, TLC
 CONSTANTS NCmds, Scope
 VARIABLES c
-Seeds == IF Scope = "full" THEN {1, 7, 123456, 0} ELSE {1, 7}
+\* 0 and negative numbers other than -1 ("use the clock") are seeds like any other
+Seeds == IF Scope = "full" THEN {1, 7, 123456, 0, -7} ELSE {1, 7, 0}
 Threads == IF Scope = "full" THEN {1, 2, 3, 4, 16, 32} ELSE {1, 4, 16}
 Reps == IF Scope = "full" THEN 1..3 ELSE 1..2
 Init == c \in [cmd : 1..NCmds, seed : Seeds, threads : Threads, rep : Reps]
